@@ -2,6 +2,7 @@
 #define _GNU_SOURCE
 #include "vfc.h"
 #include <stdlib.h>
+#include <stdint.h>
 #include <string.h>
 #include <signal.h>
 #include <unistd.h>
@@ -317,6 +318,14 @@ static void write_replay(const char *prop, const char *key, const char *msg, cha
     close(wfd); wfd = -1;
 }
 bool vf_case_failed(void) { return case_viols > 0; }
+#include <pthread.h>
+static void *lock_probe_main(void *m) { int r = pthread_mutex_trylock((pthread_mutex_t *)m); if (r == 0) pthread_mutex_unlock((pthread_mutex_t *)m); return (void *)(intptr_t)r; }
+bool vf_lock_probe(void *m) {
+    if (!m) return true;
+    pthread_t t; void *r = NULL; if (pthread_create(&t, NULL, lock_probe_main, m)) return true; pthread_join(t, &r);
+    vf_count("lock_probes_from_a_second_thread", 1);
+    return (intptr_t)r == 0;
+}
 
 static uint64_t vkeys[256]; static int nvkeys;
 static bool viol_v(const char *prop, const char *key, const char *msg) {
